@@ -1,8 +1,8 @@
 #!/usr/bin/env python3
 """rs2lean_engine.py - translator for the transform loop nests of the engines:
   Naive::{fft, ifft}                                   (src/engine/engine_naive.rs)
-  {NoSimd, Ssse3, Avx2}::{fft_private, ifft_private}   with their helpers fft/ifft_butterfly_two_layers inlined
-                                                       (src/engine/engine_{nosimd,ssse3,avx2}.rs)
+  {NoSimd, Ssse3, Avx2, Neon}::{fft_private, ifft_private}   with their helpers fft/ifft_butterfly_two_layers inlined
+                                                       (src/engine/engine_{nosimd,ssse3,avx2,neon}.rs)
 
 Regenerates /verif/lean/RSVerif/Gen/SrcEngine.lean from the CURRENT Rust text.  A transform becomes a Lean function
   (pos size truncated_size skew_delta : Nat) (skewZ : Nat → Bool) : Option (Array EOp)
@@ -559,6 +559,7 @@ ENGINES = [
     ("NoSimd", "src/engine/engine_nosimd.rs", r"^impl\s+NoSimd$", "fft_private", "ifft_private", r"^impl\s+NoSimd$"),
     ("Ssse3", "src/engine/engine_ssse3.rs", r"^impl\s+Ssse3$", "fft_private", "ifft_private", r"^impl\s+Ssse3$"),
     ("Avx2", "src/engine/engine_avx2.rs", r"^impl\s+Avx2$", "fft_private", "ifft_private", r"^impl\s+Avx2$"),
+    ("Neon", "src/engine/engine_neon.rs", r"^impl\s+Neon$", "fft_private", "ifft_private", r"^impl\s+Neon$"),
 ]
 
 
@@ -600,7 +601,7 @@ def main():
     except CannotTranslate as e:
         print(f"CANNOT-TRANSLATE: {e}")
         return 3
-    text = ("/- GENERATED by /verif/translate/rs2lean_engine.py from the current text of src/engine/engine_{naive,nosimd,ssse3,avx2}.rs\n"
+    text = ("/- GENERATED by /verif/translate/rs2lean_engine.py from the current text of src/engine/engine_{naive,nosimd,ssse3,avx2,neon}.rs\n"
             "   — do not edit.  Each function runs the loop nest of a transform and returns the shard operations it performs,\n"
             "   in order (`none` = usize overflow / underflow, failed debug_assert!, loop fuel exhausted). -/\n"
             "import RSVerif.Model.RustEngine\n\nset_option linter.unusedVariables false\n\nnamespace RS.SrcE\nopen RS.RustE\n\n" +
